@@ -16,6 +16,7 @@
   type; what holds (and is proved) is equality of the fields, i.e. the same calendar instant.
 -/
 import DateutilVerif.Proofs.RDDiff
+import DateutilVerif.Proofs.RDGenEq
 
 namespace C09
 open RDM RDP
@@ -200,6 +201,56 @@ theorem diff_inverse_distinct_objects_counterexample :
     diff nyOff ⟨.aware 0 1, { y := 2020, m := 3, d := 8, hh := 12 }⟩ ⟨.aware 0 1, { y := 2020, m := 3, d := 7, hh := 12 }⟩
       = some (.ok { days := 1 }) := by
   decide +kernel
+
+/-! ## `_gen` twins: the two-argument constructor RE-TRANSLATED from /repo on this run
+
+`Gen.initDiff off fuel a b` (Generated/RDOps.lean) is the translation of the `if dt1 and dt2:` branch of `__init__`
+(coercion, estimate, `_set_months`, `self.__radd__(dt2)`, the `while compare(dt1, dtm)` loop as `Gen.initDiff_loop`,
+the residual, `_fix`); out of fuel is the distinguished error NotImplemented.  `RDG.initDiff_eq` proves it equal to
+the model `diffN`, so the theorems above hold of the translated code. -/
+
+/-- **gen_initDiff_eq_model.** -/
+theorem gen_initDiff_eq_model (off : Nat → DT → Int) (fuel : Nat) (a b : Temporal) :
+    Gen.initDiff off fuel a b = RDG.ofOption (diffN off fuel a b) := RDG.initDiff_eq off fuel a b
+
+/-- **diff_loop_terminates_gen.** The translated loop needs at most one iteration: fuel 1 gives a value, and every
+    larger fuel the same one (never the out-of-fuel error). -/
+theorem diff_loop_terminates_gen (off : Nat → DT → Int) (a b : Temporal) (ha : a.Valid) (hb : b.Valid)
+    (hc : Compatible a b) : ∃ r, ∀ n, Gen.initDiff off (n + 1) a b = .ok r := by
+  obtain ⟨r, _, h⟩ := diff_loop_terminates off a b ha hb hc
+  exact ⟨r, fun n => by rw [RDG.initDiff_eq, h n]; rfl⟩
+
+/-- **diff_inverse_gen.** With the translated constructor and the translated `__add__`:
+    `dt2 + relativedelta(dt1, dt2)` has exactly `dt1`'s fields, and is `dt1` for operands of one kind. -/
+theorem diff_inverse_gen (off : Nat → DT → Int) (a b : Temporal) (ha : a.Valid) (hb : b.Valid) (hc : Compatible a b) :
+    ∃ r res, Gen.initDiff off 2 a b = .ok r ∧ Gen.addDt r b = .ok res ∧ res.t = a.t ∧ (a.kind = b.kind → res = a) := by
+  obtain ⟨r, res, h1, h2, h3, h4⟩ := diff_inverse off a b ha hb hc
+  refine ⟨r, res, ?_, by rw [RDG.addDt_eq]; exact h2, h3, h4⟩
+  rw [RDG.initDiff_eq]; unfold diff at h1; rw [h1]; rfl
+
+theorem diff_normalised_gen (off : Nat → DT → Int) (n : Nat) (a b : Temporal) (r : RD)
+    (h : Gen.initDiff off n a b = .ok r) : Normalised r ∧ r.year = none ∧ r.month = none ∧ r.day = none ∧
+      r.weekday = none ∧ r.hour = none ∧ r.minute = none ∧ r.second = none ∧ r.microsecond = none ∧ r.leapdays = 0 := by
+  rw [RDG.initDiff_eq] at h
+  cases hd : diffN off n a b with
+  | none => rw [hd] at h; cases h
+  | some q =>
+    rw [hd] at h
+    have hq : q = .ok r := h
+    rw [hq] at hd
+    exact ⟨diff_normalised off n a b r hd, diff_only_relative off n a b r hd⟩
+
+theorem diff_largest_shift_gen (off : Nat → DT → Int) (a b : Temporal) (ha : a.Valid) (hb : b.Valid) (hc : Compatible a b) :
+    ∃ r, Gen.initDiff off 2 a b = .ok r ∧
+      ((¬ a.t.toMicros < b.t.toMicros ∧ 0 ≤ monthTotal r ∧
+          (shiftDT b.t (monthTotal r)).toMicros ≤ a.t.toMicros ∧
+          a.t.toMicros < (shiftDT b.t (monthTotal r + 1)).toMicros) ∨
+       (a.t.toMicros < b.t.toMicros ∧ monthTotal r ≤ 0 ∧
+          a.t.toMicros ≤ (shiftDT b.t (monthTotal r)).toMicros ∧
+          (shiftDT b.t (monthTotal r - 1)).toMicros < a.t.toMicros)) := by
+  obtain ⟨r, h1, h2⟩ := diff_largest_shift off a b ha hb hc
+  refine ⟨r, ?_, h2⟩
+  rw [RDG.initDiff_eq]; unfold diff at h1; rw [h1]; rfl
 
 -- non-vacuity / sanity
 example : diff (fun _ _ => 0) ⟨.date, { y := 2024, m := 3, d := 31 }⟩ ⟨.date, { y := 2024, m := 2, d := 29 }⟩
